@@ -8,8 +8,9 @@ package main
 // computed from the type declarations, restricted to the fields the parser fills. A walk is a group of mutually
 // recursive functions outside the ast package (a strongly connected component of the VTA call graph): the evaluator's
 // Eval and everything it dispatches to, or a collector that gathers the components / inserts of a file after parsing.
-// What a walk reaches of a node type T is what its functions read of T, plus what the ast functions they call to get
-// at statements (Stmts() and the like — functions of package ast whose result holds statements) read of T.
+// What a walk reaches of a node type T is what its functions and their non-recursive helpers read of T, plus what the
+// ast functions they call to get at statements (Stmts() and the like — functions of package ast whose result holds
+// statements) read of T.
 // The rule is one-sided handling made exact: a walk that reads one parser-filled statement-holding field of T reads
 // every one of them. A collector that goes through EachStmt.Block but not EachStmt.Alternative never sees the
 // component used in the @else of an @each; an evaluator that does the same never renders it.
@@ -313,6 +314,14 @@ func (m *Model) RunWalk(s *Sink, rule string) {
 		}
 		return false
 	}
+	// what a walk calls to get at the tree: the ast functions that hand out statements, and the helpers of the walk's
+	// own packages that are not themselves recursive (`nthIfBranch(node, i)`)
+	partOfWalk := func(c *ssa.Function) bool {
+		if shortPkg(fnPkgPath(c)) == "ast" {
+			return handsOutStmts(c)
+		}
+		return true
+	}
 	nWalks, nTypes := 0, 0
 	for _, comp := range sccs {
 		allAst := true
@@ -338,7 +347,7 @@ func (m *Model) RunWalk(s *Sink, rule string) {
 			seenAst[f] = true
 			readsOf(f, reads)
 			for _, c := range succ(f) {
-				if !inComp[c] && handsOutStmts(c) {
+				if !inComp[c] && partOfWalk(c) {
 					viaAst(c)
 				}
 			}
@@ -346,7 +355,7 @@ func (m *Model) RunWalk(s *Sink, rule string) {
 		for _, f := range comp {
 			readsOf(f, reads)
 			for _, c := range succ(f) {
-				if !inComp[c] && handsOutStmts(c) {
+				if !inComp[c] && partOfWalk(c) {
 					viaAst(c)
 				}
 			}
